@@ -112,6 +112,7 @@ class VF:
         self.owner_stack = []
         self.rec_calls = []      # recursive call sites: (did, args values, result term)
         self.frame_vars = {}
+        self.frame_parent = {}
         self.disc_mode = 0
 
     # ------------------------------------------------------------------ utilities
@@ -217,7 +218,7 @@ class VF:
                     # write into a projection of an element: a[i].f = v
                     cur = self.read(Place(root, path[:n + 1]))
                     curt = self.to_term(cur)
-                    newv = T.app('with', curt, T.app('set:' + '.'.join(str(x) for x in path[n + 1:]), self.to_term(v)))
+                    newv = with_set(curt, '.'.join(str(x) for x in path[n + 1:]), self.to_term(v))
                 else:
                     newv = self.to_term(v)
                 base = self.read(cont)
@@ -225,6 +226,8 @@ class VF:
                 return
         for k in [k for k in self.store if k[0] == root and len(k[1]) > len(path) and k[1][:len(path)] == path]:
             del self.store[k]
+        if root[0] == 'var':
+            self.frame_vars.setdefault(root[1], set()).add(root[3])
         if self.disc_mode:
             # discovery pass: only the set of written places matters; keep values tiny
             self.written.add((root, path))
@@ -526,8 +529,14 @@ class VF:
         return tmp
 
     def upvar_frame(self, n):
-        # closures are inlined with `closure_frames` mapping closure did -> defining frame
-        return self.closure_frames.get(n['closure'], self.frame)
+        # closures are inlined with `closure_frames` mapping closure did -> defining frame;
+        # a variable captured through several closure levels lives further up the definition chain
+        f = self.closure_frames.get(n['closure'], self.frame)
+        guard = 0
+        while n['var'] not in self.frame_vars.get(f, ()) and f in self.frame_parent and guard < 50:
+            f = self.frame_parent[f]
+            guard += 1
+        return f
 
     closure_frames = {}
 
@@ -955,9 +964,10 @@ class VF:
             elif k not in s0 and not (k[0][0] == 'var' and self.is_loop_local(k, s0)):
                 changed.add(k)
         for k in written:
-            if k in s0 or not (k[0][0] in ('var', 'tmp')):
-                if k[0][0] != 'tmp':
-                    changed.add(k)
+            if k[0][0] == 'tmp':
+                continue
+            if k in s0 or k[0][0] != 'var' or not self.is_loop_local(k, s0):
+                changed.add(k)
         # discard pass-1 side results
         del self.events[ev0:]
         del self.loops[lp0:]
@@ -1019,7 +1029,9 @@ class VF:
         return res
 
     def is_loop_local(self, k, s0):
-        return k not in s0
+        """a variable place that did not exist (nor any enclosing place of it) before the loop"""
+        root, path = k
+        return not any((root, path[:n]) in s0 for n in range(len(path) + 1))
 
     def new_loop(self, kind, node):
         self.uid += 1
@@ -1241,6 +1253,7 @@ class VF:
         frame = self.new_frame()
         saved = self.frame
         self.frame = frame
+        self.frame_parent[frame] = clos.frame
         old = self.closure_frames
         self.closure_frames = dict(old)
         self.closure_frames[clos.did] = clos.frame
@@ -1316,6 +1329,21 @@ def index_term(base, i):
     if base[0] == 'tuple' and T.is_num(i) and i[2] == 1 and 0 <= i[1] < len(base[1]):
         return base[1][i[1]]
     return T.app('index', base, i)
+
+
+def with_set(base, sub, v):
+    """functional record update, flattened: with(with(b, s1), s2) = with(b, s1, s2)"""
+    sets = {}
+    if T.is_app(base, 'with'):
+        for s_ in base[2][1:]:
+            sets[s_[1]] = s_
+        base = base[2][0]
+    key = 'set:' + sub
+    # a write to a field overrides earlier writes to its sub-fields
+    for k in [k for k in sets if k.startswith(key + '.')]:
+        del sets[k]
+    sets[key] = T.app(key, v)
+    return T.app('with', base, *[sets[k] for k in sorted(sets)])
 
 
 def upd_term(base, i, v):
